@@ -283,6 +283,7 @@ Inductive op : Type :=
 | RemoveVia (c : cls) (i : iid)           (* c.hook.remove_function(i): only c's own stores *)
 | Touch (c : cls) (h : hook)              (* getattr(c, h): lazily creates the per-subclass Hook *)
 | NewObj (o : obj) (c : cls)
+| CopyObj (o src : obj)             (* o = copy.copy(src): same class, explicit and remembered values copied into containers of its own *)
 | Read (o : obj) (h : hook)
 | Assign (o : obj) (h : hook) (v : value)
 | Delete (o : obj) (h : hook)
@@ -321,6 +322,11 @@ Definition step (fuel : nat) (st : state) (o : op) : state * obs :=
   | NewObj ob c =>
       ({| stores := stores st; impls := impls st; dict := dict st; cache := cache st; cyc := cyc st;
           ocls := (ob, c) :: ocls st; trace := trace st |}, ODone)
+  | CopyObj ob src =>
+      let own (kv : key2 * value) := Nat.eqb (fst (fst kv)) src in
+      let moved (l : list (key2 * value)) := map (fun kv => ((ob, snd (fst kv)), snd kv)) (filter own l) in
+      ({| stores := stores st; impls := impls st; dict := moved (dict st) ++ dict st; cache := moved (cache st) ++ cache st;
+          cyc := cyc st; ocls := (ob, cls_of st src) :: ocls st; trace := trace st |}, ODone)
   | Read ob h => let '(st1, r) := read fuel st ob h in (st1, OOut r)
   | Assign ob h v => (set_dict st (aset key2_eqb (dict st) (ob, h) v), ODone)
   | Delete ob h => (set_dict st (adel key2_eqb (dict st) (ob, h)), ODone)
